@@ -376,6 +376,12 @@ func (e *Engine) runPath(in *Interp, fn *ssa.Function, item WorkItem, wantSample
 					res.status, res.msg = x.status, x.msg
 				case unsupported:
 					res.status, res.msg = "unsupported", x.msg+" (in "+in.whereNow()+")"
+					if in.eng.cfg.Verbose {
+						func() {
+							defer func() { recover() }()
+							res.msg += " inputs: " + traceString(in.concretizeTrace(in.finalModelOrEmpty()))
+						}()
+					}
 				default:
 					res.status, res.msg = "fault", fmt.Sprintf("%v\n%s", r, interpStack(in))
 				}
